@@ -111,13 +111,13 @@ def report_case(ctx, case, props, *, nontrivial, classes=None, extra_monitors=()
     return run
 
 
-def line_preempt_sweep(ctx, base, props, *, nontrivial, classes=None, extra_monitors=(), inv=0, kinds=("line",), limit=600, label="sweep"):
+def line_preempt_sweep(ctx, base, props, *, nontrivial, classes=None, extra_monitors=(), inv=0, kinds=("line",), limit=600, label="sweep", order="low"):
     """One run per executed line-level yield point of invocation `inv`: the task executing that point is preempted for as
     long as anything else can run. `base` must carry "line": [...modules...]. Returns (runs, complete)."""
     k = 0
     total = None
     while (total is None or k < total) and k < limit:
-        sched = [{"mode": "seq"}] * inv + [{"mode": "linepreempt", "k": k, "kinds": list(kinds)}]
+        sched = [{"mode": "seq"}] * inv + [{"mode": "linepreempt", "k": k, "kinds": list(kinds), "order": order}]
         case = {**copy.deepcopy(base), "sched": sched}
         run = report_case(ctx, case, props, nontrivial=nontrivial, classes=classes, extra_monitors=extra_monitors)
         rec = run.invocations[inv] if len(run.invocations) > inv else None
